@@ -115,6 +115,28 @@ def observe(classes: list[dict], postponed: bool, lab: Labels) -> list[Any]:
                         f"{'postponed' if postponed else 'plain'} {c['name']}: {short_tb(e)}\n{_subject_src(mod.src)}")
             require(ichild == child and iprops == props, "class-vs-instance-accessors", f"{c['name']}: {child}/{props} vs {ichild}/{iprops}")
             out.append(("accepted", child, [p for p in props if p not in ("id", "content_id", "origin")]))
+            if c is classes[-1]:
+                # an empty subclass defined in another module, where the node class names of this module
+                # mean something else: inherited fields keep the verdict of the class that declared them
+                try:
+                    sub = CF.foreign_subclass(mod, c["name"], postponed)
+                    schild = [f.name for f in sub.get_child_fields()]
+                    sprops = [f.name for f in sub.get_property_fields(False, False, False)]
+                    sinst = sub()
+                    ichild2 = [f.name for f in type(sinst).get_child_fields()]
+                    iprops2 = [f.name for _, f in sinst.get_properties(False, False, False)]
+                except Exception as e:  # noqa: BLE001
+                    if type(e).__module__.startswith("mashumaro") or _raised_inside(e, "mashumaro"):
+                        lab.tag("foreign-subclass-mashumaro-limit")
+                        continue
+                    require(False, "inherited-fields-in-another-module",
+                            f"{'postponed' if postponed else 'plain'} subclass of {c['name']} in another module: {short_tb(e)}\n"
+                            + _subject_src(mod.src))
+                require(schild == child and sprops == props and ichild2 == child and iprops2 == props,
+                        "inherited-fields-in-another-module",
+                        f"{'postponed' if postponed else 'plain'} subclass of {c['name']} in another module: children {schild} "
+                        f"properties {sprops}; declaring class: {child} / {props}\n" + _subject_src(mod.src))
+                lab.tag("foreign-module-subclass")
         return out
     finally:
         mod.close()
